@@ -1,6 +1,9 @@
 """C19 translated value clauses keep their operator, operands and literals."""
 import contextlib
 import io
+import os
+
+os.environ["VERIF_TIME_SHADOW"] = "1"  # duration literals are evaluated on the term-level timedelta model (vf/sym/times.py)
 
 import z3
 
@@ -136,6 +139,7 @@ def tasks(tier):
     smax = 3 if tier == "quick" else 4
     ts += [{"what": "q", "n": n, "quote": q} for n in range(0, smax + 1) for q in ('"', "'")]
     ts += [{"what": "present"}, {"what": "tables"}]
+    ts += [{"what": "duration", "kind": k} for k in ("seconds", "age-days", "age-quarter-days")]
     return ts
 
 
@@ -145,11 +149,50 @@ def run_task(task, kf):
         out.append(explore.explore(_op_harness(*cases(task["tier"])[task["i"]]), kf, profile_root=L.SRC))
     elif task["what"] == "q":
         out.append(explore.explore(_q_harness(task["n"], task["quote"]), kf, profile_root=L.SRC))
+    elif task["what"] == "duration":
+        out.append(explore.explore(_duration_harness(task["kind"]), kf, profile_root=L.SRC))
     elif task["what"] == "present":
         out += [explore.explore(h, kf, profile_root=L.SRC) for h in _present_harnesses()]
     else:
         out.append(explore.explore(_tables_harness(), kf))
     return out
+
+
+def _duration_harness(kind):
+    """seconds_to_duration / age_to_duration emit a duration literal; evaluated by the real DurationType text grammar it must
+    denote the same length of time (symbolic count; the literal's digits become symbolic text)"""
+    from ..sym import times as T
+    from ..sym.core import SRat
+    celpy, ct, ev = common.mods()
+    R = rewriter()
+    N = z3.Int("n")
+    if kind == "seconds":
+        pre, want = [N >= 0, N <= 20_000_000], N * T.US
+        call = lambda v: R.seconds_to_duration(mk(SInt, N, v))  # noqa: E731
+    elif kind == "age-days":
+        pre, want = [N >= 0, N <= 4000], N * 86400 * T.US
+        call = lambda v: R.age_to_duration(mk(SInt, N, v))  # noqa: E731
+    else:
+        pre, want = [N >= 0, N <= 4000], N * 21600 * T.US  # quarter days: 0.25, 0.5, 1.75 ... exactly representable
+        call = lambda v: R.age_to_duration(SRat(N, 4, v))  # noqa: E731
+
+    def run(vals):
+        try:
+            lit = call(vals["n"])
+        except Exception as ex:  # noqa: BLE001
+            return [Ob(f"C19/duration/{kind}/translates", z3.BoolVal(False), note=f"{type(ex).__name__}: {ex}"[:120])]
+        raw = str.__str__(lit)
+        if len(raw) < 2 or raw[0] != raw[-1] or raw[0] not in "\"'":
+            return [Ob(f"C19/duration/{kind}/is-a-string-literal", z3.BoolVal(False), note=raw[:60])]
+        body = lit[1:-1]  # the translator's q() quoting of digits and unit letters adds no escapes
+        kd, r = common.outcome(lambda: ct.DurationType(ct.StringType(body)))
+        if kd != "value":
+            return [Ob(f"C19/duration/{kind}/literal-is-a-valid-duration", z3.BoolVal(False), note=f"{raw}: {type(r).__name__}: {r}"[:120])]
+        return [Ob(f"C19/duration/{kind}/same-length-of-time", T.td_us(r)[0] == want, note=raw)]
+
+    def witness(vals):
+        return {"check": "c19.duration_literal", "args": enc({"kind": kind, "n": vals["n"]})}
+    return Harness(id=f"C19/duration/{kind}", vars={"n": N}, pre=pre, run=run, witness=witness, max_paths=250 if kind == "seconds" else 120)
 
 
 _R = {}
